@@ -78,6 +78,16 @@ func (n *Nodis) Clear() {
 	if err != nil {
 		log.Println("Clear: ", err)
 	}
+	// every watched key has just changed (it is gone)
+	n.store.watchMu.RLock()
+	n.store.watchedKeys.Scan(func(key string, clients *list.LinkedListG[*redis.Conn]) bool {
+		clients.ForRange(func(c *redis.Conn) bool {
+			c.WatchKeys.Set(key, true)
+			return true
+		})
+		return true
+	})
+	n.store.watchMu.RUnlock()
 }
 
 func (n *Nodis) notify(f func() []patch.Op) {
